@@ -27,15 +27,15 @@ func init() {
 		return &ActionSpec{
 			ID: id, Module: "Txn",
 			MCCfgs: []string{"TxnMC_q.cfg", "TxnMC_env_q.cfg"}, MCThor: []string{"TxnMC.cfg", "TxnMC_env.cfg"}, GenCfgs: gens,
-			NSim: [2]int{100, 2500}, NRand: [2]int{40, 400},
+			NSim: [2]int{400, 8000}, NRand: [2]int{40, 400},
 			Setup: txnSetup, Exec: txnExec, Random: nil, Sig: txnSig, Assume: assume, MCWorkers: 12,
 		}
 	}
-	c05 := mk("C05", []string{"cells are small integers and NULL; statement forms: INSERT (1 and 2 rows, wrong length), UPDATE/DELETE with and without WHERE, REPLACE on one key column, ADD/DROP/RENAME column, on file tables and a temporary table; INSERT..SELECT, column lists, UPDATE..FROM join, multi-assignment UPDATE, ADD FIRST / DEFAULT expression, CREATE TABLE AS SELECT, SET ENCODING, inserts made by user-defined functions"}, "TxnGen_create.cfg", "TxnGen_temp.cfg", "TxnGen_two.cfg", "TxnGen_typed.cfg", "TxnGen_dirs.cfg", "TxnGen_reads.cfg")
+	c05 := mk("C05", []string{"cells are small integers and NULL; statement forms: INSERT (1 and 2 rows, wrong length), UPDATE/DELETE with and without WHERE, REPLACE on one key column, ADD/DROP/RENAME column, on file tables and a temporary table; INSERT..SELECT, column lists, UPDATE..FROM join, multi-assignment UPDATE, ADD FIRST / DEFAULT expression, CREATE TABLE AS SELECT, SET ENCODING, inserts made by user-defined functions"}, "TxnGen_create.cfg", "TxnGen_temp.cfg", "TxnGen_two.cfg", "TxnGen_typed.cfg", "TxnGen_dirs.cfg", "TxnGen_upgrade.cfg")
 	c05.Random = func(r *core.Run, k int) (Action, []Action) { return txnRandom(r, k, "dml") }
 	c08 := mk("C08", []string{"failure causes modelled: division by zero at one row of a multi-row UPDATE, wrong row length, unknown field after RENAME/DROP, duplicate column, existing file, missing file, failing DEFAULT expression, ambiguous join update, CREATE TABLE AS SELECT with wrong names / failing query, COMMIT that cannot encode a changed file, one UPDATE of two tables failing in the second"}, "TxnGen_create.cfg", "TxnGen_commitfail.cfg", "TxnGen_temp.cfg", "TxnGen_two.cfg", "TxnGen_typed.cfg")
 	c08.Random = func(r *core.Run, k int) (Action, []Action) { return txnRandom(r, k, "fail") }
-	c20 := mk("C20", []string{"the environment is a second real csvq transaction in the same OS process with a 50 ms wait timeout; reads by identifier, sub-query, aggregate and table function (f2 carries a byte order mark)"}, "TxnGen_reads.cfg", "TxnGen_case.cfg")
+	c20 := mk("C20", []string{"the environment is a second real csvq transaction in the same OS process with a 50 ms wait timeout; reads by identifier, sub-query, aggregate and table function (f2 carries a byte order mark)"}, "TxnGen_reads.cfg", "TxnGen_case.cfg", "TxnGen_upgrade.cfg")
 	c20.Random = func(r *core.Run, k int) (Action, []Action) { return txnRandom(r, k, "env") }
 	// the poison switch of lib/value (build tag verif): a value handed back to the pool is never re-issued but marked, so
 	// that a table cell which some statement discarded shows at the next read instead of when the pool happens to recycle it
@@ -134,7 +134,7 @@ func txnSetup(dir string, init Action) []string {
 	}
 	// nobody else holds these files (the environment process commits and leaves): a lock that is still there
 	// was left behind by an earlier statement - do not wait 10 s for it
-	pre := []string{"SET @@WAIT_TIMEOUT TO 0.1;"}
+	pre := []string{"SET @@WAIT_TIMEOUT TO 0.5;"} // (0.1 s was not enough on a loaded machine: spurious ContextDone results, and after 60 of them the replay stopped early)
 	// tables big enough to be split over workers are processed with several workers (the sessions of the harness
 	// default to one): UPDATE, DELETE and REPLACE number and match records per worker range
 	big := 0
